@@ -193,16 +193,20 @@ def slot2 (op : Op2) (same : Bool) (oa ob : Option SVal) : Option SVal × Option
     | none => (oa, ob, .one .nil)
     | some (.str _) => (oa, ob, wrongType)
     | some (.list l) =>
-      match l.getLast? with
-      | none => (oa, ob, .one .nil)
-      | some x =>
-        -- source popped (and removed when empty) BEFORE the destination is looked at
-        let na := if l.dropLast.isEmpty then none else some (SVal.list l.dropLast)
-        let ob' := if same then na else ob
-        match ob' with
-        | none => (na, some (.list [x]), .one (.bulk x))
-        | some (.list d) => (na, some (.list (x :: d)), .one (.bulk x))
-        | some (.str _) => (na, ob', wrongType)
+      -- since the `fix:` commit for C17:error-mutates:RPOPLPUSH:wrongtype the destination type
+      -- is checked BEFORE the pop when the source is a list
+      match ob with
+      | some (.str _) => (oa, ob, wrongType)
+      | _ =>
+        match l.getLast? with
+        | none => (oa, ob, .one .nil)
+        | some x =>
+          let na := if l.dropLast.isEmpty then none else some (SVal.list l.dropLast)
+          let ob' := if same then na else ob
+          match ob' with
+          | none => (na, some (.list [x]), .one (.bulk x))
+          | some (.list d) => (na, some (.list (x :: d)), .one (.bulk x))
+          | some (.str _) => (na, ob', wrongType)
 
 def exec2 (s : St) (k1 k2 : Key) (op : Op2) : St × Reply :=
   let r := slot2 op (k1 == k2) (NMap.get s k1) (NMap.get s k2)
